@@ -4,7 +4,7 @@
    also what is extracted and run against the real C++. *)
 From Coq Require Import ZArith List Bool.
 From MomoCommon Require Import GenPrelude.
-From C17 Require Gen_Leaves Leaves_Proofs SorterSearch SorterSort Search_Proofs Find_Proofs IsSorted_Proofs Sort_Proofs Radix_Proofs CodeGetter Checker Instance SelPrims Gen_SelSort SelSort_Proofs SelSort_Refine Gen_Radix Radix_Gen_Proofs Gen_RadixCount Radix_Count_Refine.
+From C17 Require Gen_Leaves Leaves_Proofs SorterSearch SorterSort Search_Proofs Find_Proofs IsSorted_Proofs Sort_Proofs Radix_Proofs CodeGetter Checker Instance SelPrims Gen_SelSort SelSort_Proofs SelSort_Refine Gen_Radix Radix_Gen_Proofs Gen_RadixCount Radix_Count_Refine Gen_RadixCycle Radix_Cycle_Refine Gen_HsGuards HsGuards_Proofs.
 Import ListNotations.
 Local Open Scope Z_scope.
 
@@ -271,3 +271,53 @@ Theorem C17_gen_counting_pass_refines_model : forall R, 0 <= R <= 16 -> forall l
     end.
 Proof. exact Radix_Count_Refine.gen_count_refines. Qed.
 Print Assumptions C17_gen_counting_pass_refines_model.
+
+(* ---- the GENERATED cycle-leader permutation (Gen_RadixCycle.v) ---- *)
+
+(* refinement: the generated nested for/while loops follow the hand model's flattened perm_loop: whenever the hand loop
+   returns Ok lf from a related state, the generated loop returns Ok with exactly the codes of lf *)
+Theorem C17_gen_cycle_leader_refines_model : forall sw, (forall l i j, sw l i j = SorterSort.swap l i j) ->
+  forall R, 0 <= R <= 16 -> forall p cnt shift begin, 0 <= p -> 0 <= shift ->
+  forall ei, (forall r, 0 <= r < 2 ^ R -> ei r <= cnt) ->
+  forall (loop_fuel n F f1 : nat) l bh bg items swa swb swn r lf,
+    r + Z.of_nat n = 2 ^ R -> 0 <= r -> (n < f1)%nat -> (F <= loop_fuel)%nat ->
+    SorterSort.perm_loop sw R F l p shift r ei bh = Ok lf -> Radix_Cycle_Refine.Rel p l items -> Radix_Cycle_Refine.Beq R bg bh ->
+    (forall r', 0 <= r' < 2 ^ R -> 0 <= bh r') -> p + cnt <= SorterSort.alen l -> SorterSort.alen l < 2 ^ 62 ->
+    exists bg' items' r' swa' swb' swn',
+      Gen_RadixCycle.pvRadixSort_cycle_loop1 R (2 ^ R) loop_fuel f1 begin ei shift bg items r swa swb swn = Ok (bg', items', r', swa', swb', swn') /\
+      Radix_Cycle_Refine.Rel p lf items'.
+Proof. exact Radix_Cycle_Refine.outer_refines. Qed.
+Print Assumptions C17_gen_cycle_leader_refines_model.
+
+(* the GENERATED counting pass followed by the GENERATED cycle-leader function, on every array (count > 0, length < 2^62),
+   every radix size R <= 16 and every shift: both terminate (the cycle-leader loop always finds room in the target bucket:
+   the counting argument, now about generated code), the result is a rearrangement of the range only (relR: permutation,
+   frame), and the buckets [S r, S (r+1)) given by the generated table E hold exactly the items with digit r. *)
+Theorem C17_gen_count_then_cycle_total : forall sw, (forall l i j, sw l i j = SorterSort.swap l i j) ->
+  forall R l p cnt shift begin fuel e0 b1 b2 bi0 swa swb swn,
+  0 <= R <= 16 -> 0 <= p -> 0 < cnt -> 0 <= shift -> p + cnt <= SorterSort.alen l -> SorterSort.alen l < 2 ^ 62 ->
+  (Z.to_nat (cnt + 2 ^ R) + 2 <= fuel)%nat ->
+  exists E sc sr S bi' items' swa' swb' swn' l',
+    Gen_RadixCount.pvRadixSort_count R (2 ^ R) fuel e0 (fun k => SorterSort.code l (p + k)) b1 b2 begin cnt shift = Ok (tt, E, sc, sr) /\
+    Gen_RadixCycle.pvRadixSort_cycle R (2 ^ R) fuel E bi0 (fun k => SorterSort.code l (p + k)) swa swb swn begin shift = Ok (tt, bi', items', swa', swb', swn') /\
+    Sort_Proofs.relR p (p + cnt) l l' /\ (forall k, 0 <= k -> items' k = SorterSort.code l' (p + k)) /\
+    S 0 = 0 /\ S (2 ^ R) = cnt /\ (forall r, 0 <= r < 2 ^ R -> S r <= S (r + 1) /\ E r = S (r + 1)) /\
+    (forall r, 0 <= r < 2 ^ R -> forall k, S r <= k < S (r + 1) -> SorterSort.getRadix R (items' k) shift = r).
+Proof. exact Radix_Cycle_Refine.gen_count_then_cycle_total. Qed.
+Print Assumptions C17_gen_count_then_cycle_total.
+
+(* ---- the GENERATED entry guards of HashSorter::pvFindHash / pvIsSorted (fix 2715474) ---- *)
+Theorem C17_gen_empty_sequence_guards : forall count,
+  Gen_HsGuards.pvFindHash_returns_early count = (count =? 0) /\ Gen_HsGuards.pvFindHash_early_value = false /\
+  Gen_HsGuards.pvIsSorted_returns_early count = (count =? 0) /\ Gen_HsGuards.pvIsSorted_early_value = true.
+Proof. exact HsGuards_Proofs.gen_guards_spec. Qed.
+Print Assumptions C17_gen_empty_sequence_guards.
+
+Theorem C17_gen_empty_sequence_guards_refine_model : forall MS SC CMP count hash item eqf qh,
+  (Gen_HsGuards.pvFindHash_returns_early count = true ->
+     SorterSearch.pvFindHash MS SC CMP count hash qh = Ok (0, Gen_HsGuards.pvFindHash_early_value)) /\
+  (Gen_HsGuards.pvIsSorted_returns_early count = true ->
+     SorterSearch.pvIsSorted count hash item eqf = Ok Gen_HsGuards.pvIsSorted_early_value) /\
+  (Gen_HsGuards.pvFindHash_returns_early 0 = true /\ Gen_HsGuards.pvIsSorted_returns_early 0 = true).
+Proof. exact HsGuards_Proofs.gen_guards_refine_model. Qed.
+Print Assumptions C17_gen_empty_sequence_guards_refine_model.
